@@ -1,4 +1,4 @@
-import FrappyModel.Klass.Instance
+import FrappyModel.Klass.Session
 /-
 C09 — Module classes, instances and configurations are isolated from each other.
 
@@ -39,7 +39,8 @@ def judgeRun (init : List (String × α)) (steps : List (Option String × List (
 
 /-- "A module's description is a function of its own class chain and its own configuration only":
 two programs that define the same classes (same declarations, same bases) in different orders,
-possibly among other classes, show the same dump for every owner they have in common. -/
+possibly among other classes, load the same configuration and create the same modules from it in different
+orders, show the same dump for every owner they have in common (classes, instances, configuration sections). -/
 def OrderIndependent (a b : List (String × α)) : Prop :=
   ∀ o da db, (o, da) ∈ a → (o, db) ∈ b → da = db
 
@@ -169,5 +170,26 @@ def viewsOf (T : Tables) (env : Name → Option ClassDecl) : Nat → Name → Op
 /-- validation behaviour of the accessibles of an owner, for any validation function of datatypes -/
 def validateH {V O : Type} (val : DTree → V → O) (w : World) (o : Owner) (v : V) : List (Name × Option O) :=
   (describeH w o).map (fun nv => (nv.1, (nv.2.bind (·.tree)).map (fun t => val t v)))
+
+/-! ## around classes and instances: the loaded configuration, class-chain properties, input tables (`Klass/Session.lean`) -/
+
+/-- every entry of every loaded section refers to an existing `Param` object -/
+def CfgBounded (s : Session) : Prop := ∀ c ∈ s.sections, ∀ kr ∈ c.entries, kr.2 < s.params.length
+
+/-- "configurations are isolated": an operation — in particular the creation of a module from a section, from this one or from
+one that shares a `Param` object with it — leaves what every loaded section shows as it was -/
+def ConfigIsolated (T : STables) (s : Session) (op : SOp) : Prop :=
+  ∀ sec, s.findSection sec ≠ none → describeCfg (sstep T s op) sec = describeCfg s sec
+
+/-- the operations on classes and instances a sequence of session operations amounts to -/
+def worldOps (T : STables) : Session → List SOp → List Op
+  | _, [] => []
+  | s, op :: ops => (op.worldOp s).toList ++ worldOps T (sstep T s op) ops
+
+/-- a session run is admissible when the operations on classes and instances it amounts to are -/
+def SAdmissibleRun (T : STables) (s : Session) (ops : List SOp) : Prop := AdmissibleRun T.base s.world (worldOps T s ops)
+
+/-- the direct bases of every class along the MRO of `c` are on record -/
+def BasesKnown (s : Session) (c : Name) : Prop := ∀ b ∈ mroOf s.world c, ahas s.bases b = true
 
 end Frappy.Spec.C09
